@@ -9,30 +9,32 @@ PY = "/venv/bin/python"
 
 E1 = "bounded-exhaustive enumeration of inputs/programs/configurations against a reference model"
 E2 = "explicit-state breadth-first search over operation histories on the real objects, lock-step reference model"
+E2S = (" + explicit-state search over operation sequences on live objects (evaluate / modify in place / observe again) against a "
+       "reference table built from specifications")
 E3 = "deviation-bounded exhaustive enumeration of worker completion schedules (controlled pool) + TLC model traces replayed"
 
 # id -> (level, technique, text, note, design_ref)
 CHECKS = {
-    "C01": ("exploration", E1 + " (all series/parallel skeletons up to L leaves x leaf palette x 3 construction routes x frequency vectors)",
-            "Every canonical series/parallel skeleton with <= 3 (quick) / <= 5 (thorough) leaves and the object-only shapes, every filling from a 15-entry palette that forces open, shorted, partially shorted, tiny and huge branches and container elements, built from objects, from CDC text and with CircuitBuilder, evaluated on six frequency vectors and one frequency at a time; compared with a plain-complex reference composition. Exhaustive per bound; larger skeletons only as seeded random extras.",
+    "C01": ("exploration", E1 + " (all series/parallel skeletons up to L leaves x leaf palette x 3 construction routes x frequency vectors)" + E2S,
+            "Every canonical series/parallel skeleton with <= 3 (quick) / <= 5 (thorough) leaves and the object-only shapes, every filling from a 15-entry palette that forces open, shorted, partially shorted, tiny and huge branches and container elements, built from objects, from CDC text and with CircuitBuilder, evaluated on six frequency vectors and one frequency at a time; compared with a plain-complex reference composition. Exhaustive per bound; larger skeletons only as seeded random extras. In addition every sequence of 5 (6) operations from {evaluate on three frequency vectors, set_values on a top-level element, set_values on an element inside a container's sub-circuit, set_subcircuits, a container's own parameter} on three live circuits built by each route must show the impedance of a circuit built directly with the current parameters.",
             "Leaf impedances are taken from the leaf element's own scalar get_impedances (C02 is responsible for leaves); tolerance 1e-12 x cancellation factor.", "DESIGN.md section 4, C01"),
-    "C02": ("exploration", E1 + " (parameter grid in the limit box x frequency grid, 50-digit mpmath adjudication of the documented equation)",
-            "For each of the 22 non-container classes the cartesian grid of per-parameter value sets inside the class limit box x 16 (46) frequencies: numeric impedance vs the documented equation, decided by a 50-digit evaluation with a conditioning filter; all 36 open/short/finite configurations of the general transmission line x contents x L numeric vs symbolic; every circuit skeleton <= 3 leaves over an 8-entry palette symbolic vs numeric; reported 0 Hz / infinite-frequency limits vs converged finite-frequency values. Exhaustive over the declared grid only - the continuum of parameter values cannot be covered by this family.",
+    "C02": ("exploration", E1 + " (parameter grid in the limit box x frequency grid, 50-digit mpmath adjudication of the documented equation)" + E2S,
+            "For each of the 22 non-container classes the cartesian grid of per-parameter value sets inside the class limit box x 16 (46) frequencies: numeric impedance vs the documented equation, decided by a 50-digit evaluation with a conditioning filter; all 36 open/short/finite configurations of the general transmission line x contents x L numeric vs symbolic; every circuit skeleton <= 3 leaves over an 8-entry palette symbolic vs numeric; reported 0 Hz / infinite-frequency limits vs converged finite-frequency values, for single elements over value sequences and for whole circuits over every sequence of 4 (5) operations from {evaluate at 0, at inf, at [0,1,inf]; set_values on a nested element}. Exhaustive over the declared grid only - the continuum of parameter values cannot be covered by this family.",
             "Class._equation is taken as the documented equation; refusals (NaN/inf impedance errors) are judged only inside the moderate sub-box default x [1e-3,1e3]; ill-conditioned points (reference moves > 1e-7 under +-8 ulp) are counted and skipped.", "DESIGN.md section 4, C02"),
-    "C03": ("exploration", E1 + " (circuit ASTs x grammar-directed printer spellings with <= k switches off canonical; the generator is the oracle)",
-            "Every circuit AST over skeletons <= 3 (4) leaves with one focus leaf ranging over ~50 element variants (labels, fixed flags, values, limits incl. beyond the class defaults, container sub-circuits) is built through the public API, serialised with 1/3/12/17 decimals, parsed and compared with the AST; fixed point, copy/deepcopy and impedance clauses; every spelling with <= 2 (3) of 12 printer switches off the canonical position must parse to the denoted circuit. Deviation-bounded and exhaustive within the alphabet.",
+    "C03": ("exploration", E1 + " (circuit ASTs x grammar-directed printer spellings with <= k switches off canonical; the generator is the oracle)" + E2S,
+            "Every circuit AST over skeletons <= 3 (4) leaves with one focus leaf ranging over ~50 element variants (labels, fixed flags, values, limits incl. beyond the class defaults, container sub-circuits) is built through the public API, serialised with 1/3/12/17 decimals, parsed and compared with the AST; fixed point, copy/deepcopy and impedance clauses; every spelling with <= 2 (3) of 12 printer switches off the canonical position must parse to the denoted circuit. Deviation-bounded and exhaustive within the alphabet. In addition every sequence of 4 (5) operations from {serialise, serialise-parse-serialise, parse the short spelling of two default transmission lines, in-place edits of (nested) elements, set_subcircuits, deepcopy} on three live circuits per construction route.",
             "States are reached by setter calls in an order chosen by the harness; class-default sub-circuits are read from the library.", "DESIGN.md section 4, C03"),
     "C04": ("exploration", E1 + " (all atom sequences up to N, all single/double mutations of valid codes)",
             "Every string over a 31-atom lexical alphabet up to 4 (quick) / 5 (thorough) atoms, plus every single mutation of ~380 grammar-derived valid codes, is parsed by the real parse_cdc; outcome must be a Circuit, a parsing/tokenizing error or an explained ValueError; accepted strings must simulate (or raise an impedance error) and their serialisation must re-parse. Exhaustive within the stated alphabet and bound, which is the right level for a totality claim over strings.",
             "Strings outside the atom alphabet are only reached through mutations; a parse > 2 s counts as a hang.", "DESIGN.md section 4, C04"),
     "C05": ("model_checking", E2 + " (DataSet histories vs list-of-triples model)",
             "Explicit-state BFS over DataSet operation histories (construction from ascending/descending data with every small mask dictionary, set_mask, low/high pass, subtraction, dict/JSON export-import with optional keys dropped, repeated import of one dict, duplicate, average) on the real class for 1..4 (5) points to depth 4-5 (5-7); after every transition every observer and the caller's dictionaries are compared with a reference model. All histories up to the depth bound over the stated operation menu are covered.",
-            "Operation menu and mask dictionaries are bounded (<= 2-4 present keys); aliasing of returned arrays/dicts is not part of the property and not checked.", "DESIGN.md section 4, C05"),
+            "Operation menu and mask dictionaries are bounded (<= 2-4 present keys); the operands of average and the object a duplicate / import / average was derived from are re-observed after every later operation (shared arrays); histories of length <= 1 are never merged with an equal-looking state.", "DESIGN.md section 4, C05"),
     "C14": ("model_checking", E2 + " (element parameter API histories vs dictionary state machine; copy/deepcopy/re-parse oracles)",
             "Explicit-state BFS over call histories of the element parameter API on five classes (1- and 2-parameter elements, +-inf box, container) to depth 3-4 (4-6) with valid and invalid calls in keyword and positional form; every transition is compared with a reference state machine; copy, deepcopy and re-parse equality/independence are checked in every state whose values lie within their limits; class defaults and fresh instances are re-observed after every call.",
             "Value menus are 5 points per parameter; multi-key calls are modelled as applied in order up to the first refused key.", "DESIGN.md section 4, C14"),
     "C15": ("model_checking", E2 + " (registry histories from a harness-made hard reset vs reference registry)",
-            "Explicit-state BFS over histories of register_element / remove_elements / reset / set_default_values / reset_default_parameter_values with eight user definitions (valid, duplicate symbol, grossly and subtly inconsistent impedance, shadowing, prefix-sharing, invalid symbols) to depth 4 (7); after every transition get_elements in all flag combinations, every built-in default, 16 parse probes and instance defaults are compared with a reference registry; futures after reset are covered because search continues from the reset state and the canonical state includes the module-internal dicts.",
+            "Explicit-state BFS over histories of register_element / remove_elements / reset / set_default_values / reset_default_parameter_values with eight user definitions (valid, duplicate symbol, grossly and subtly inconsistent impedance, shadowing, prefix-sharing, invalid symbols) to depth 4 (7); after every transition get_elements in all flag combinations, every built-in default, 16 parse probes and instance defaults are compared with a reference registry (set_default_values also on a container's own parameter, a sub-circuit key and an unknown key); futures after reset are covered because search continues from the reset state and the canonical state includes the module-internal dicts.",
             "Every history is replayed from a hard reset done by the harness, not by the reset() under test; re-registering built-in class objects is outside the alphabet.", "DESIGN.md section 4, C15"),
     "C16": ("exploration", E1 + " (all small circuits x type/label patterns + long chains; symbol<->element differential oracle)",
             "Every canonical skeleton <= 3 (4) leaves and the object-only shapes x every filling from six entries (repeated types, containers with nested sub-circuits, a container in a container) x nine label patterns, plus chains/ladders of 12-22 elements (shared decimal suffixes of running identifiers); identifier bijections against an independent traversal, name uniqueness, validate_circuit, fit identifiers, symbol<->element differential on Circuit.to_sympy(), CircuiTikZ labels, and the parameter table of a short real fit on a subset. Exhaustive per bound.",
@@ -41,37 +43,37 @@ CHECKS = {
             "Every canonical skeleton <= 3 leaves over a 9-entry palette, object-only shapes, 4 (5) leaves over reduced palettes, and 17 labels at every position of four small circuits: to_sympy, to_sympy(substitute), to_latex, to_circuitikz (3 option sets), to_drawing and to_stack must return; variable counts, balanced begin/end, one drawn component per connection element named as the circuit names it, finite coordinates. Exhaustive per bound.",
             "Only circuits that simulate are judged; layout quality of diagrams is outside the property.", "DESIGN.md section 4, C20"),
     "C06": ("exploration", E1 + " (cross product of documented file conventions; the emitter is the oracle)",
-            "Delimited tables over every header alias triple x letter case x separator/decimal mark with negation markers, unit suffixes, column orders, row orders, 1-3 sweeps and 1-7 points (rotating in quick, crossed in thorough), the full product of the structural switches with fixed aliases, the CSV table printed by the CLI fed back, and emitters for .mpt/.i2b/.P00/.dfr/.z/.dta (incl. drift-corrected) are written to a scratch directory, parsed with parse_data and compared with the emitted spectrum (sign of Im, one data set per sweep, sweep labels).",
+            "Delimited tables over every header alias triple x letter case x separator/decimal mark with negation markers, unit suffixes, column orders, row orders, 1-3 sweeps (over the same or shifted frequency windows) and 1-7 points (rotating in quick, crossed in thorough), the full product of the structural switches with fixed aliases, the CSV table printed by the CLI fed back, and emitters for .mpt/.i2b/.P00/.dfr/.z/.dta (incl. drift-corrected) are written to a scratch directory, parsed with parse_data and compared with the emitted spectrum (sign of Im, one data set per sweep, sweep labels).",
             "Combinations outside the documented detection contract are not generated (decimal comma with comma separator; headers containing the separator; spaces in headers of semicolon files); extension-less parsing is not checked (parser order depends on set iteration).", "DESIGN.md section 4, C06"),
     "C07": ("exploration", E1 + " (cross product of test kinds, representations, options and grids on spectra of an independent model implementation)",
-            "All six linear test implementations and cnls x {Z, Y} x capacitance x inductance x num_RC x log_F_ext x six frequency grids x sign patterns x magnitude scales over six decades (24k quick / 119k thorough runs): the spectrum is computed by an independent implementation of the test's own model (eq. 12 time constants, Fig. 1 / Fig. 13 topology); residuals must vanish (1e-6; cnls 1e-3), the fitted time constants must equal the reference ones and every parameter the spectrum is sensitive to must be recovered to 1e-4 where the weighted design matrix is well conditioned.",
+            "All six linear test implementations and cnls x {Z, Y} x capacitance x inductance x num_RC x log_F_ext x six frequency grids x sign patterns x magnitude scales over six decades (plus 1e-9 / 1e9), and every ordered pair of tests run back to back in one process on four grids sharing point count and end points or on one grid with other magnitudes/options (26k quick / 125k thorough runs): the spectrum is computed by an independent implementation of the test's own model (eq. 12 time constants, Fig. 1 / Fig. 13 topology); residuals must vanish (1e-6; cnls 1e-3), the fitted time constants must equal the reference ones and every parameter the spectrum is sensitive to must be recovered to 1e-4 where the weighted design matrix is well conditioned.",
             "Only well-posed configurations (>= 2 data points per unknown) are generated; real-valued parameters and frequencies are covered on the declared grid only.", "DESIGN.md section 4, C07"),
     "C09": ("exploration", E1 + " (metamorphic pairs: impedance scaling, frequency scaling, point reversal)",
             "Noisy mock and ladder spectra x six linear tests (+cnls) x {Z, Y} x capacitance x inductance x num_RC x log_F_ext x 13 transformations (|Z| and f scaled by 1e-6..1e6 and 2^+-20, reversed order): residuals, pseudo chi-squared, time constants and model impedances of the transformed run must equal the rescaled original within frozen, tiered tolerances (0 for reversal, 1e-6 without C/L columns and for |Z| scaling of least-squares variants, 1e-3 otherwise). Exhaustive over the declared grid.",
             "Tolerances were calibrated once on the unchanged tree and frozen; num_RC is kept in the well-conditioned range; the un-equilibrated w columns are a recorded known finding keyed by the measured un-normalised condition number.", "DESIGN.md section 4, C09"),
     "C11": ("exploration", E1 + " (option cross products on constant-phase and ladder spectra; analytic modulus as oracle)",
-            "Constant-phase spectra x 5 smoothers x 4 interpolators x {Z, Y}, (num_points, polynomial_order) pairs, custom weights x frequency grids, named windows x centres x widths and the default call, ladders, scaling by 2^10 and 1e-3, modification of zero-weight moduli, every smoothing filter on exactly constant/linear phase, and the window generator for 13 windows x 9 placements; oracles are the analytic modulus (2e-4), a frozen 15 % band for ladders, equivariance, and filter exactness (1e-10).",
+            "Constant-phase spectra x 5 smoothers x 4 interpolators x {Z, Y}, (num_points, polynomial_order) pairs, custom weights x frequency grids, named windows x centres x widths and the default call, ladders, scaling by 2^10 and 1e-3, modification of zero-weight moduli, the same named window on two grids of equal length one call after the other (other range; same end points with warped spacing), every smoothing filter on exactly constant/linear phase, and the window generator for 13 windows x 9 placements; oracles are the analytic modulus (2e-4), a frozen 15 % band for ladders, equivariance, and filter exactness (1e-10).",
             "Spectra are a declared finite set; bands were calibrated once on the unchanged tree and frozen.", "DESIGN.md section 4, C11"),
     "C08": ("exploration", E1 + " (entry points x options x mask subsets x masked payloads x input order; differential masked-vs-removed oracle)",
-            "About 50 (110) configured entry points - KK tests, evaluate_log_F_ext, exploratory KK, Z-HIT incl. the offset-shift case, four DRT methods and circuit fits - x every mask subset of size <= 2 over four probe positions x garbage payloads at the masked points x ascending/descending input: result frequencies, residual definition, pseudo chi-squared, attached circuit, untouched inputs, and bit-identical result versus the data set with the masked points physically removed.",
+            "About 50 (110) configured entry points - KK tests, evaluate_log_F_ext, exploratory KK, Z-HIT incl. the offset-shift case, four DRT methods and circuit fits - x every mask subset of size <= 2 over four probe positions x garbage payloads at the masked points x ascending/descending input, plus each light entry point run twice in one process with masks leaving equally many points and the same end points: result frequencies, residual definition, pseudo chi-squared, attached circuit, untouched inputs, and bit-identical result versus the data set with the masked points physically removed.",
             "All option combinations are carried by one noisy 25-point mock spectrum (plus one with negative Re Y); BHT is run with a fixed numpy seed on both legs.", "DESIGN.md section 4, C08"),
     "C13": ("exploration", E1 + " (ladder grid x DRT methods x lambda modes x scalings; generating circuit as oracle)",
-            "Ladders of 1-4 RC/RQ elements x resistance scales x grids x TR-NNLS (2 modes x 3 lambda modes), the Loewner method, m(RQ)fit (exact fit and real fitting path; per-element areas by superposition) and four scalings: non-negativity, area = R_pol, a peak at every R*C, exact Loewner pairs without inductive branch, scaling laws. Tolerances frozen from a calibration on the unchanged tree.",
+            "Ladders of 1-4 RC/RQ elements x resistance scales x grids x TR-NNLS (2 modes x 3 lambda modes), the Loewner method, m(RQ)fit (exact fit and real fitting path; per-element areas by superposition), four scalings, and TR-NNLS / Loewner runs preceded in the same process by a run on another 96-point grid, ladder or mode: non-negativity, area = R_pol, a peak at every R*C, exact Loewner pairs without inductive branch, scaling laws. Tolerances frozen from a calibration on the unchanged tree.",
             "Ladders with >= 1.5 decades spacing only (the property's own restriction); calls that raise are counted and judged by C18.", "DESIGN.md section 4, C13"),
     "C12": ("exploration", E1 + " (circuit families x scales x start perturbations; method x weight x limit box x fixed subset x constraint set)",
             "Recovery with the automatic method/weight choice on six identifiable circuit families x three impedance scales x three start perturbations (18 quick / 66 thorough fits of 36 sub-fits each), and about 600 (2300) invariant fits crossing methods, weights, limit boxes (incl. limits beyond the class defaults and boxes that exclude the truth), subsets of fixed parameters and constraint sets; oracles: generating parameters up to a swap of identical blocks, vanishing pseudo chi-squared, bounds, bit-identical fixed values, constraints, parameter table and data frame equal to the returned circuit, untouched inputs, and winner = smallest pseudo chi-squared among the individually run pairs.",
             "Declared finite grid of families and scales; a FittingError is an accepted refusal; invariant fits are capped at 200 function evaluations.", "DESIGN.md section 4, C12"),
     "C10": ("exploration", E1 + " (finite grid of circuits x noise levels x seeds with a frozen acceptance band)",
-            "Every bundled valid mock circuit (8 cheapest in quick, all 19 in thorough) and RC/RQ ladders x three noise levels x seeds 0..K-1 through the default automatic test: estimated/injected noise inside the frozen band [0.33, 5], suggested num_RC inside its reported limits, wrapper agrees with the exploratory entry point; drift-corrupted counterparts must have >= 2x the pseudo chi-squared at low noise. This is the weakest claim of the set: a statistical property decided on an enumerated grid only.",
+            "Every bundled valid mock circuit (8 cheapest in quick, all 19 in thorough) and RC/RQ ladders x three noise levels x seeds 0..K-1 through the default automatic test: estimated/injected noise inside the frozen band [0.33, 5], suggested num_RC inside its reported limits, wrapper agrees with the exploratory entry point; drift-corrupted counterparts must have >= 2x the pseudo chi-squared at low noise; the same after the same circuit was tested at another noise level in the same process. This is the weakest claim of the set: a statistical property decided on an enumerated grid only.",
             "Band calibrated once on the unchanged tree (observed 0.84..2.55) and frozen; changes that mis-calibrate by less than about 2x are not detectable.", "DESIGN.md section 4, C10"),
     "C19": ("exploration", E1 + " (CLI commands x inputs x formats x filters, differential against the API in the same process)",
             "pyimpspec.cli.main() is run in-process for parse (mock specifiers and generated files x three formats x six filter sets, output to files, --average), circuit --simulate (plotted data sets captured), fit and drt (methods x options x formats x filters) and every subset/order of the six mock-specifier keys; every printed or written number is compared with the API call with the same settings (csv exact, json to its printed decimals, md to the printed digits).",
             "Commands run in-process with the Agg backend; plots are observed through the data sets handed to the plot functions.", "DESIGN.md section 4, C19"),
     "C17": ("model_checking", E3 + "; repetition in fresh processes",
-            "Z-HIT with automatic options (4, 5 and 20 tasks per stage, three spectra incl. one whose candidates tie bit-for-bit), multi-method fits (incl. a constructed exact tie), evaluate_log_F_ext and cnls run under a controlled in-process pool: every feasible completion order for P = 2 (3) workers and for P = n in thorough, deviation-bounded (<= 1-2) otherwise; each execution is compared with the serial result. The TLC model of the pool (N tasks, P workers) supplies the completion orders independently: its terminal traces equal the enumerator's set and every one is replayed on the pool and on perform_zhit. Plus same-process and fresh-process repetition (different hash seeds), mock-data seeds, and a free-running sample with the real pool.",
+            "Z-HIT with automatic options (4, 5 and 20 tasks per stage, three spectra incl. one whose candidates tie bit-for-bit), multi-method fits (incl. a constructed exact tie), evaluate_log_F_ext and cnls run under a controlled in-process pool: every feasible completion order for P = 2 (3) workers and for P = n in thorough, deviation-bounded (<= 1-2) otherwise; each execution is compared with the serial result. The TLC model of the pool (N tasks, P workers) supplies the completion orders independently: its terminal traces equal the enumerator's set and every one is replayed on the pool and on perform_zhit. Plus same-process and fresh-process repetition (different hash seeds), a free-running sample with the real pool, and for mock data an explicit-state search: every sequence of 3 operations from {4 data requests, modify the circuit returned by generate_mock_circuits} per definition, each request compared bit for bit with the same request as first call of a fresh process.",
             "Workers share no memory and results travel by pickle, which the controlled pool reproduces; time-outs and OS scheduling are not modelled; BHT/TR-RBF are excluded (unseeded by design).", "DESIGN.md section 4, C17"),
     "C18": ("exploration", E1 + " (option cross products: full product of the step-arithmetic dimensions, pairwise covering of the rest) + explicit-state search of the Progress counter",
-            "KK (7 tests x num_RC modes x num_F_ext_evaluations in {-10, 0, 5, 10, 21} as a full product on 4..41 points, crossed with a pairwise covering array / full product over representation, capacitance, inductance, rapid, F_ext limits), Z-HIT (auto options x windows x weights full product; pairwise / full over 6 smoothers x 5 interpolators x {Z,Y} x weights x windows x (num_points, order) on 3/5/12 points), DRT (all methods and modes on 1..12 points), fit (36 method/weight pairs + auto on 1..12 points): every call must complete or be refused by an explicit raise of a TypeError/ValueError/library error in pyimpspec code; the progress counter's own check and anything propagating from NumPy/SciPy/lmfit/statsmodels is a violation; every notification must carry a fraction in [0, 1] and a string. The Progress class itself is searched as a state machine (two nested contexts, register/unregister) to depth 7 (9).",
+            "KK (7 tests x num_RC modes x num_F_ext_evaluations in {-10, 0, 5, 10, 21} as a full product on 4..41 points, crossed with a pairwise covering array / full product over representation, capacitance, inductance, rapid, F_ext limits), Z-HIT (auto options x windows x weights full product; pairwise / full over 6 smoothers x 5 interpolators x {Z,Y} x weights x windows x (num_points, order) on 3/5/12 points), DRT (all methods and modes on 1..12 points), fit (36 method/weight pairs + auto on 1..12 points; every form of the method argument x every form of the weight argument), and each entry point called directly after the same call on another number of points over the same range (same outcome class as a first call): every call must complete or be refused by an explicit raise of a TypeError/ValueError/library error in pyimpspec code; the progress counter's own check and anything propagating from NumPy/SciPy/lmfit/statsmodels is a violation; every notification must carry a fraction in [0, 1] and a string. The Progress class itself is searched as a state machine (two nested contexts, register/unregister) to depth 7 (9).",
             "Refusal is recognised from the traceback (innermost frame is an explicit raise in pyimpspec); cnls runs its real kernel on <= 8 points only.", "DESIGN.md section 4, C18"),
 }
 
